@@ -1034,27 +1034,27 @@ func checkC15Algebra(res *Result, pkgs []*packages.Package) {
 	if acc == nil {
 		// the algebra may have been split out into a method of the same type that returns the
 		// map: `p := t.helper()` — read it there
-		for _, st := range fd.Body.List {
-			as, ok := st.(*ast.AssignStmt)
-			if !ok || len(as.Lhs) != 1 || len(as.Rhs) != 1 {
-				continue
-			}
-			c, ok := as.Rhs[0].(*ast.CallExpr)
-			if !ok || len(c.Args) != 0 {
-				continue
+		var hd *ast.FuncDecl
+		ast.Inspect(fd.Body, func(n ast.Node) bool {
+			c, ok := n.(*ast.CallExpr)
+			if !ok || len(c.Args) != 0 || hd != nil {
+				return true
 			}
 			sel, ok := c.Fun.(*ast.SelectorExpr)
 			if !ok || types.ExprString(sel.X) != recv {
-				continue
+				return true
 			}
-			hd := fds["TypeGenerator."+sel.Sel.Name]
-			if hd == nil || hd.Body == nil || hd.Recv == nil || len(hd.Recv.List[0].Names) != 1 {
-				continue
+			if d := fds["TypeGenerator."+sel.Sel.Name]; d != nil && d.Body != nil && d.Recv != nil && len(d.Recv.List[0].Names) == 1 && d.Type.Results != nil && len(d.Type.Results.List) == 1 {
+				if _, isMap := d.Type.Results.List[0].Type.(*ast.MapType); isMap {
+					hd = d
+				}
 			}
+			return true
+		})
+		if hd != nil {
 			recv = hd.Recv.List[0].Names[0].Name
 			ops, unknown = nil, nil
 			walk(hd.Body.List, nil, false, "")
-			break
 		}
 	}
 	if acc == nil {
